@@ -373,6 +373,18 @@ func genPool(t *rapid.T) PoolCase {
 			c.Actors = append(c.Actors, s)
 		}
 		c.Post = []POp{{K: "stop"}}
+	} else if rapid.IntRange(0, 2).Draw(t, "burst") == 0 {
+		// bursts of no-op jobs against one worker: the channel fills and drains while Sends are still
+		// arriving, so the deferred path and the flusher's exit are exercised dynamically
+		c.Workers = 1
+		c.Pre = []POp{{K: "run"}}
+		for a, ns := 0, rapid.IntRange(1, 3).Draw(t, "senders"); a < ns; a++ {
+			c.Actors = append(c.Actors, sends(rapid.IntRange(2, 6).Draw(t, "nsends"), "noop"))
+		}
+		c.Post = []POp{{K: "stop"}}
+		th := rapid.SampledFrom([]int{26, 51, 77, 128}).Draw(t, "threshold")
+		c.Sched = Schedule{Tape: rapid.SliceOfN(rapid.Byte(), 100, 800).Draw(t, "tape"), Threshold: th}
+		return c
 	} else {
 		c.Pre = []POp{{K: "run"}}
 		ns := rapid.IntRange(1, 3).Draw(t, "senders")
